@@ -198,6 +198,10 @@ def plan_C09(ctx):
     return codec_family(ctx, 6000, 200000)
 
 
+def plan_C13(ctx):
+    return codec_family(ctx, 6000, 200000)
+
+
 def plan_C14(ctx):
     return codec_family(ctx, 6000, 200000)
 
@@ -547,7 +551,7 @@ def plan_C12(ctx):
     return codec_family(ctx, 6000, 200000, mc_cfgs_quick=("both", "pa"), rnd_cfg="mix")
 
 
-PLANS = {"C15": plan_C15, "C08": plan_C08, "C04": plan_C04, "C06": plan_C06, "C11": plan_C11, "C03": plan_C03, "C10": plan_C10, "C18": plan_C18, "C12": plan_C12, "C01": plan_C01, "C02": plan_C02, "C05": plan_C05, "C09": plan_C09, "C14": plan_C14}
+PLANS = {"C13": plan_C13, "C15": plan_C15, "C08": plan_C08, "C04": plan_C04, "C06": plan_C06, "C11": plan_C11, "C03": plan_C03, "C10": plan_C10, "C18": plan_C18, "C12": plan_C12, "C01": plan_C01, "C02": plan_C02, "C05": plan_C05, "C09": plan_C09, "C14": plan_C14}
 MODULES = {k: "TraceCodec" for k in PLANS}
 MODULES["C18"] = "TracePrim"
 MODULES["C03"] = MODULES["C10"] = "TraceDecode"
